@@ -413,3 +413,109 @@ def c07(sc, io):
                         res.append(("C07-fragment-stamped-with-previous-book", "the arrival fragment of %s is stamped %s, earlier than the time it took effect (%s)" % (o["o"], f[0], o["placed"]), {"order": o["o"], "frag": f, "created": o["created"], "placed": o["placed"]}))
                     break
     return res
+
+
+# ---------------------------------------------------------------------------------------------------------
+LEGAL = {
+    (None, "Pending"), (None, "Violation"),
+    ("Pending", "Executable"), ("Pending", "Execution complete"), ("Pending", "Expired"), ("Pending", "Violation"),
+    ("Executable", "Cancelling"), ("Executable", "Updating"), ("Executable", "Replacing"), ("Executable", "Execution complete"),
+    ("Cancelling", "Executable"), ("Cancelling", "Execution complete"),
+    ("Updating", "Executable"), ("Updating", "Execution complete"),
+    ("Replacing", "Executable"), ("Replacing", "Execution complete"),
+}
+STUTTER = {("Executable", "Executable"), ("Execution complete", "Execution complete")}
+
+
+def c03(sc, io):
+    res = []
+    for o in io["final"]:
+        seq = [None] + o["log"]
+        for a, b in zip(seq, seq[1:]):
+            if (a, b) in LEGAL or (a, b) in STUTTER:
+                continue
+            det = {"order": o["o"], "log": o["log"], "transition": [a, b]}
+            if b == "Violation":
+                res.append(("C03-live-order-marked-violation", "order %s went %s -> Violation: a control refusing a cancel/update/replace marks the order resting at the exchange" % (o["o"], a), det))
+            elif a in ("Execution complete", "Expired", "Violation"):
+                res.append(("C03-reopened-after-complete", "order %s went %s -> %s: a response to an in-flight request re-opened an order that had completed meanwhile" % (o["o"], a, b), det))
+            else:
+                res.append(("C03-illegal-transition", "order %s went %s -> %s" % (o["o"], a, b), det))
+    # finality, sampled at every strategy call
+    done = {}
+    removal_seen = set()
+    for ob in io["obs"]:
+        mi = next((i for i, m in enumerate(sc["markets"]) if m["id"] == ob["m"]), None)
+        u = book_at(sc, mi, ob["pt"]) if mi is not None else None
+        if u is not None and any(r.get("status") == "REMOVED" for r in u["runners"]):
+            removal_seen.add(ob["m"])      # a non-runner: the exchange re-prices / voids matched bets (C09), not a lifecycle event
+        for o in ob["orders"]:
+            key = (ob["m"], o["o"])
+            if ob["m"] in removal_seen:
+                done.pop(key, None)
+                continue
+            if key in done:
+                m0, v0 = done[key]
+                if o["complete"] and C(o["matched"]) != m0 and C(o["voided"]) == v0:
+                    res.append(("C03-matched-changed-after-complete", "matched size of completed order %s changed %s -> %s" % (o["o"], m0, C(o["matched"])), {"order": o["o"], "pt": ob["pt"]}))
+                done[key] = (C(o["matched"]), C(o["voided"]))
+            elif o["complete"] and o["status"] != "Violation" and o["persist"] != "MARKET_ON_CLOSE":
+                done[key] = (C(o["matched"]), C(o["voided"]))
+    # requests: accepted only on an order resting executable; otherwise an error and no side effects
+    for r in io["requests"]:
+        if r[3] not in ("cancel", "update", "replace") or len(r) < 7 or "before" not in r[6]:
+            continue
+        b, a, out = r[6]["before"], r[6].get("after"), r[5]
+        ok_state = b[0] == "Executable" and b[1] is not None and (b[5] == "LIMIT" or (r[3] == "replace" and b[5] == "LIMIT_ON_CLOSE"))
+        det = {"request": r[:6], "before": b, "after": a}
+        if out is True and not ok_state:
+            res.append(("C03-request-accepted-in-flight", "%s accepted on %s while its status was %s (bet %s, %s)" % (r[3], r[4], b[0], b[1], b[5]), det))
+        if isinstance(out, str) and out.startswith("EXC:") and a is not None and a != b:
+            res.append(("C03-rejected-request-side-effect", "rejected %s on %s (%s) changed the order" % (r[3], r[4], out), det))
+        if not ok_state and out is not True and out is not False and not (isinstance(out, str) and out.startswith("EXC:OrderUpdateError")):
+            res.append(("C03-rejected-without-error", "%s on %s (%s) returned %r instead of raising OrderUpdateError" % (r[3], r[4], b[0], out), det))
+    return res
+
+
+def c10(sc, io):
+    res = []
+    for ob in io["obs"]:
+        s = ob["s"]
+        trades = {}
+        for o in ob["orders"]:
+            if o["strategy"] == s:
+                trades.setdefault(o["trade"], []).append(o)
+        by = {}
+        for t, os_ in trades.items():
+            if os_[0].get("trade_pending_orders"):
+                continue
+            k = os_[0]["sel"]
+            live = any(not o["complete"] for o in os_)
+            e = by.setdefault(k, [0, 0])
+            e[0] += 1; e[1] += 1 if live else 0
+            st = os_[0]["trade_status"]
+            det = {"pt": ob["pt"], "trade": t, "orders": [(o["o"], o["status"], o["log"]) for o in os_], "trade_log": os_[0]["trade_log"]}
+            if st != "Complete" and not live:
+                if any(any(a == "Execution complete" and b_ == "Executable" for a, b_ in zip(o["log"], o["log"][1:])) for o in os_):
+                    res.append(("C10-reopened-after-complete", "trade %s is %s although all its orders are complete: one of them was re-opened by a late FAILURE response after the trade had completed, and completing again does not complete the trade a second time" % (t, st), det))
+                elif any(o["status"] == "Violation" and len(o["log"]) > 1 for o in os_):
+                    res.append(("C10-live-order-marked-violation", "every order of a trade is complete but the trade is %s: a control refusing a request marked a live order VIOLATION, which never completes the trade (slot locked)" % st, det))
+                else:
+                    res.append(("C10-trade-not-completed", "every order of trade %s is complete but the trade is %s" % (t, st), det))
+            if st == "Complete" and live:
+                log = [x for o in os_ for x in [o["log"]]]
+                if any(any(a == "Execution complete" and b_ in ("Executable",) for a, b_ in zip(l, l[1:])) for l in log):
+                    res.append(("C10-reopened-after-complete", "trade %s is Complete (slot freed) while an order re-opened by a late FAILURE response is live" % t, det))
+                else:
+                    res.append(("C10-complete-with-live-order", "trade %s is Complete while order(s) %s are not" % (t, [o["o"] for o in os_ if not o["complete"]]), det))
+        for k, (nt, nl) in by.items():
+            c = next((v for kk, v in ob.get("ctx", {}).items() if int(float(kk.split("/")[0])) == k), {"trades": 0, "live": 0})
+            det = {"pt": ob["pt"], "selection": k, "context": c, "recount": [nt, nl]}
+            if c["trades"] != nt:
+                res.append(("C10-trade-count", "context of selection %s counts %d trades, %d distinct trades were placed" % (k, c["trades"], nt), det))
+            if c["live"] != nl:
+                viol = any(o["status"] == "Violation" and len(o["log"]) > 1 for os_ in trades.values() for o in os_ if o["sel"] == k)
+                reop = any(any(a == "Execution complete" and b_ == "Executable" for a, b_ in zip(o["log"], o["log"][1:])) for os_ in trades.values() for o in os_ if o["sel"] == k)
+                key = "C10-live-order-marked-violation" if viol else ("C10-reopened-after-complete" if reop else "C10-live-count")
+                res.append((key, "context of selection %s is charged %d live trades, %d trades still have an order that is not complete" % (k, c["live"], nl), det))
+    return res
